@@ -4,10 +4,10 @@ CONSTANTS
   Brackets <- BracketsQ
   TolSettings <- TolsQ
   FVals <- F124
-  DVals <- D2
+  DVals <- DQ
   MaxIters = 12
-  Degenerate = FALSE
-  StopOnExactRoot = FALSE
+  Degenerate = TRUE
+  StopOnExactRoot = TRUE
 INVARIANT TypeOK
 INVARIANT Contract
 INVARIANT RootInBracket
